@@ -22,7 +22,7 @@ pub fn stream_file(name: &str) -> Vec<u8> {
     let rows = [["0/1", "1/1", "0/0", "0|1"], ["0/0", "0/1", "1/1", "./."], ["1/1", "1/1", "0/1", "0/0"], ["0/1", "0/0", "0/0", "1/2"],
                 ["0/0", "0/0", "0/1", "1|1"], ["1|0", "0|1", "1|1", "0/0"], ["0/0", "1/1", "0/0", "0/1"], ["0/1", "0/1", "0/1", "0/1"]];
     let recs: Vec<gen::Rec> = rows.iter().enumerate().map(|(i, r)| gen::Rec {
-        contig: if i < 5 { "chr1".into() } else { "chr2".into() }, pos: (i + 1) as u64, bad: false,
+        contig: if i < 5 { "chr1".into() } else { "chr2".into() }, pos: (i + 1) as u64, bad: false, nogt: false,
         gt: cols.iter().cloned().zip(r.iter().map(|s| s.to_string())).collect(),
     }).collect();
     let vcf = gen::vcf_text(&cols, &recs, true);
@@ -50,7 +50,7 @@ pub fn stream_file(name: &str) -> Vec<u8> {
                     // parse the text back into records for the BCF encoder
                     let recs: Vec<gen::Rec> = btext.lines().filter(|l| !l.starts_with('#')).map(|l| {
                         let f: Vec<&str> = l.split('\t').collect();
-                        gen::Rec { contig: f[0].into(), pos: f[1].parse().unwrap(), bad: false,
+                        gen::Rec { contig: f[0].into(), pos: f[1].parse().unwrap(), bad: false, nogt: false,
                             gt: bcols.iter().cloned().zip(f[9..].iter().map(|s| s.to_string())).collect() }
                     }).collect();
                     gen::bgzf_chunks(&gen::own_bcf(&bcols, &recs), 20000)
@@ -63,7 +63,23 @@ pub fn stream_file(name: &str) -> Vec<u8> {
             write::Builder::default().set_format(if name == "w_npy" { Format::Npy } else { Format::Text }).set_precision(6).write(&mut out, &scs).unwrap();
             out
         }
+        n if n.starts_with("ps_") || n.starts_with("pp_") => {
+            let mut out = Vec::new();
+            write::Builder::default().set_format(if n.contains("npy") { Format::Npy } else { Format::Text }).set_precision(6).write(&mut out, &proc_spectrum(n)).unwrap();
+            out
+        }
         other => panic!("unknown stream file {other}"),
+    }
+}
+
+/// the spectrum a process-sink file (ps_* = stdout, pp_* = -o PATH) is the rendering of: small = 5 x 3, big = 70 x 70
+/// (larger than any buffer a writer is likely to put in front of its sink)
+pub fn proc_spectrum(name: &str) -> Scs {
+    if name.ends_with("small") {
+        Scs::new((0..15).map(|i| i as f64 * 1.25).collect::<Vec<_>>(), vec![5usize, 3]).unwrap()
+    } else {
+        // values chosen so that the npy bytes contain few 0x0a bytes: a line-buffered stdout then holds a long tail
+        Scs::new((0..4900).map(|i| (i % 977) as f64 * 0.5 + 1.0).collect::<Vec<_>>(), vec![70usize, 70]).unwrap()
     }
 }
 
@@ -99,7 +115,7 @@ fn create_from<R: 'static + std::io::BufRead>(reader: R) -> Result<Vec<f64>, Str
     Ok(scs.inner().as_slice().to_vec())
 }
 
-pub fn run(case: &Value, _ctx: &Ctx) -> Outcome {
+pub fn run(case: &Value, ctx: &Ctx) -> Outcome {
     let mut out = Outcome::default();
     let f = &case["file"];
     let name = f["name"].as_str().unwrap();
@@ -173,6 +189,34 @@ pub fn run(case: &Value, _ctx: &Ctx) -> Outcome {
                         out.check(total == bytes.len() && !calls.iter().any(|c| c.0 == "fail"), || "stream/create/ok-without-reading-everything".into(),
                             || json!({"bytes_read": total, "file_len": bytes.len(), "calls": calls.len()}));
                     }
+                }
+            }
+        }
+        "write" if f["via"] != "lib" => {
+            // the writer inside the real process; the sink fails at byte offset fail_at (RLIMIT_FSIZE)
+            let via_stdout = f["via"] == "stdout";
+            let fmt = if name.contains("npy") { "npy" } else { "text" };
+            let scs = proc_spectrum(name);
+            let input = cli::write_npy(&scs.shape().iter().copied().collect::<Vec<_>>(), scs.inner().as_slice());
+            let sink = format!("{}/files/sink_{}_{}_{}", ctx.work, name, fail_at, std::process::id());
+            std::fs::create_dir_all(format!("{}/files", ctx.work)).expect("mkdir");
+            let limit = if fail_at >= 0 { Some(fail_at as u64) } else { None };
+            for tool in ["view"] {
+                let args: Vec<&str> = vec!["view", "-O", fmt, "--precision", "6"];
+                let (r, written) = cli::sfs_fsize(ctx, &args, &input, limit, &sink, via_stdout);
+                let d = || json!({"name": name, "tool": tool, "fail_at": fail_at, "code": r.code, "stderr": r.stderr.chars().take(300).collect::<String>(), "written": written.len(), "want_len": bytes.len()});
+                if r.panicked() {
+                    out.fail(format!("stream/process-write/{tool}/panic"), d());
+                    continue;
+                }
+                if want_ok {
+                    out.check(r.ok(), || format!("stream/process-write/{tool}/failed-but-should-succeed"), d);
+                    if tool == "view" {
+                        out.check(written == bytes, || format!("stream/process-write/{tool}/bytes-differ"), d);
+                    }
+                } else {
+                    out.check(!r.ok(), || format!("stream/process-write/{tool}/ok-but-sink-failed"), d);
+                    out.check(r.ok() || !r.stderr.trim().is_empty(), || format!("stream/process-write/{tool}/silent-failure"), d);
                 }
             }
         }
